@@ -289,7 +289,17 @@ def run_serial_case(case: dict[str, Any], oracle: Oracle, *, snapshot_every: boo
         sim.set_session("main")
         final = fp(model.snapshot())
         cover = sorted(set(getattr(oracle, "cover", [])))
+        faults = {
+            "failing_statement": probes.get("predicted_error", 0),
+            "statement_without_needed_context": probes.get("predicted_90105", 0) + probes.get("predicted_90106", 0),
+            "failing_statement_inside_open_transaction": probes.get("fail_in_txn", 0),
+            "use_after_close": probes.get("use_after_close", 0),
+            "close": probes.get("op_close", 0),
+            "instance_restart": probes.get("op_restart", 0),
+            "rollback": probes.get("op_rollback", 0),
+        }
         return {
+            "faults": {k: v for k, v in faults.items() if v},
             "cover": cover,
             "violations": [oracle.violation] if oracle.violation else [],
             "digest": sim.digest(),
